@@ -232,7 +232,8 @@ Fixpoint ps_lines (is16 : bool) (l : bytes) : list bytes * bool :=
 (* DigestPowershell's loop over those lines *)
 Inductive scanres :=
 | SBad                                                       (* readLine error *)
-| SPanic                                                     (* saved[:len(saved)-k] with a negative bound *)
+| SMalf                                                      (* begin line found with no (or too short a) previous line: "malformed powershell signature" *)
+| SPanic                                                     (* saved[:len(saved)-k] with a negative bound (excluded by the guard above; kept as the slice's own check) *)
 | SText (found : bool) (pre : bytes) (tsz ssz : Z).          (* digest input, TextSize, SigSize *)
 Definition sprepend (p : bytes) (n : Z) (r : scanres) : scanres :=
   match r with SText fd pre tsz ssz => SText fd (p ++ pre) (n + tsz) ssz | _ => r end.
@@ -241,6 +242,7 @@ Fixpoint dig_scan (is16 : bool) (first : bytes) (flen : Z) (ok : bool) (saved : 
   | [] => SBad
   | line :: rest =>
       if ps_dig_is_first line first then
+        if ps_dig_short is16 (zlen saved) then SMalf else
         let keep := if is16 then ps_dig_keep16 (zlen saved) else ps_dig_keep8 (zlen saved) in
         if keep <? 0 then SPanic else
         let saved' := ztake keep saved in
@@ -255,6 +257,9 @@ Fixpoint dig_scan (is16 : bool) (first : bytes) (flen : Z) (ok : bool) (saved : 
           end
   end.
 
+(* "malformed powershell signature": the first begin line has fewer than 2 (UTF-16: 4) bytes of a previous line in front of it *)
+Definition begin_too_early (i : bool) (first saved : bytes) (ls : list bytes) : Prop :=
+  exists Ls rest, ls = Ls ++ first :: rest /\ Forall (fun l => l <> first) Ls /\ zlen (List.last Ls saved) < (if i then 4 else 2).
 Record psdig := mkDig { d_pre : bytes; d_tsz : Z; d_ssz : Z; d_is16 : bool; d_found : bool }.
 Definition ps_digest (style : Z) (f : bytes) : result psdig :=
   match style_lookup style with
@@ -265,6 +270,7 @@ Definition ps_digest (style : Z) (f : bytes) : result psdig :=
       let '(ls, ok) := ps_lines is16 f in
       match dig_scan is16 first (zlen f) ok [] 0 ls with
       | SBad => Err E_UTF16
+      | SMalf => Err E_MALFORMED
       | SPanic => Panic 1
       | SText fd pre tsz ssz => Ok (mkDig pre tsz ssz is16 fd)
       end
